@@ -317,6 +317,10 @@ def authority (t : Step) : Viol :=
 /-- C06 / C07: requests issued in this end-of-block versus eligibility and pricing recomputed
     from the published text of the post-expiry bindings -/
 def issueLaw (t : Step) : Viol :=
+  -- C18: the harness marks an issue event whose k-th entry is not the stored request with index k
+  (t.effs.flatMap (fun e => match e with
+    | .ev "new_batch_request_misordered" _ => ["request id does not record its position in the issue event (entry k of the event is not the request with index k)"]
+    | _ => [])) ++
   match t.op with
   | .endblock _ =>
     t.pre.ctxs.flatMap (fun p =>
